@@ -34,7 +34,7 @@ def describe_cmd(m):
 
 
 def run_p(seed, tier, replay=None):
-    n = 400 if tier == "quick" else 20000
+    n = 400 if tier == "quick" else 60000
     streams = [("p_cmd", [seed, n, vlib.BUILD + "/cmd-tmp"])]
     if replay:
         rp = json.load(open(replay))
